@@ -104,6 +104,7 @@ PROPS = {
     "C17": proc("corr.C17", "PROC", "props/C17.v", "fault-free continuous and test sinks, motion-sink refusals; compared projection: continuous and test sinks; spec S17c && S17t"),
     "C18": {"stages": [{"harness": "WRITER", "corr": "corr.C18", "n": {"quick": 36, "thorough": 400}, "shard": 3},
                        {"harness": "WRITERLAG", "corr": "corr.C18lag", "n": {"quick": 1, "thorough": 8}, "shard": 8},
+                       {"harness": "WRITERRACE", "corr": "corr.C18lag", "n": {"quick": 1, "thorough": 4}, "shard": 8, "background": True},
                        {"harness": "WRECONN", "corr": "corr.C18lag", "n": {"quick": 2, "thorough": 8}, "shard": 8, "background": True},
                        {"harness": "WRITERROT", "corr": "corr.C18lag", "n": {"quick": 1, "thorough": 4}, "shard": 8, "background": True}],
             "theorems": "props/C18.v",
